@@ -152,7 +152,7 @@ def opcases(ctx, objdir, runtime):
         chunk, cs, t = job
         p = case_program(chunk, cs)
         src = render(p)
-        name = "op" + vlib.sha(src)[:12]
+        name = "op" + vlib.sha(src + "|" + t)[:12]
         kind, detail, lines, il = compile_and_run(ctx, objdir, src, t, name, runtime)
         return (job, src, kind, detail, lines)
 
